@@ -21,9 +21,6 @@ def showReqCore (r : ReqCore) : String :=
   s!"m={hx r.method} p={hx r.path} a={optHex r.authority} s={optHex r.scheme} h={showList showHdr r.headers} " ++
   s!"c={showList showCookie r.cookies} r={optHex r.referer}"
 
-def Request.core (r : Request) : ReqCore :=
-  { method := r.method, path := r.path, authority := r.authority, scheme := r.scheme,
-    headers := r.headers, cookies := r.cookies, referer := r.referer }
 
 def showOptNat : Option Nat → String | none => "~" | some n => toString n
 def showOptBool : Option Bool → String | none => "~" | some b => if b then "1" else "0"
@@ -32,7 +29,7 @@ def showSettings (s : H2Settings) : String :=
 def showTypes (l : List UInt8) : String := ".".intercalate (l.map fun t => toString t.toNat)
 
 def showReq (r : Request) : String :=
-  "ok " ++ showReqCore (Request.core r) ++
+  "ok " ++ showReqCore (reqCore r) ++
   s!" ## sid={r.streamId} hc={r.headerCount} tl={r.totalHeadersLength} fs={showTypes r.frameSequence} set={showSettings r.settings}"
 
 def showErr : ParseErr → String
@@ -42,7 +39,7 @@ def showErr : ParseErr → String
 
 def showRespCore (r : RespCore) : String := s!"st={r.status} h={showList showHdr r.headers}"
 def showResp (r : Response) : String :=
-  "ok " ++ showRespCore { status := r.status, headers := r.headers } ++
+  "ok " ++ showRespCore (respCore r) ++
   s!" ## sid={r.streamId} hc={r.headerCount} tl={r.totalHeadersLength} fs={showTypes r.frameSequence} srv={optHex r.server} ct={optHex r.contentType}"
 
 def showObsReqCore (o : ObsReqCore) : String :=
@@ -50,9 +47,6 @@ def showObsReqCore (o : ObsReqCore) : String :=
   s!"ua={optHex o.userAgent} lang={optHex o.lang} ho={showList showSigHdr o.horder} ha={showList showSigHdr o.habsent} " ++
   s!"sw={hx o.expsw} sig={hx (renderSig o.horder o.habsent o.expsw)}"
 
-def ObsRequest.core (o : ObsRequest) : ObsReqCore :=
-  { method := o.method, uri := o.uri, headers := o.headers, cookies := o.cookies, referer := o.referer,
-    userAgent := o.userAgent, lang := o.lang, horder := o.horder, habsent := o.habsent, expsw := o.expsw }
 
 def showObsRespCore (o : ObsRespCore) : String :=
   s!"ok st={o.status} h={showList showHdr o.headers} ho={showList showSigHdr o.horder} ha={showList showSigHdr o.habsent} " ++
@@ -95,7 +89,8 @@ def specFields (isReq : Bool) (frames : List Frame) : SpecOut (List Field) :=
     match Spec.Hpack.decodeBlock {} b with
     | none => .unspecified
     | some o =>
-      let legal := (if isReq then legalRequestFields o.fields else legalResponseFields o.fields) && noLaterBlocks f after
+      let legal := (if isReq then legalRequestFields o.fields else legalResponseFields o.fields) && noLaterBlocks f after &&
+        noStrayContinuation f frames
       if !legal then .unspecified
       else
         let t := textFields o.fields
@@ -105,7 +100,7 @@ def specFields (isReq : Bool) (frames : List Frame) : SpecOut (List Field) :=
         let kf :=
           (if KF.C16.headersPaddedOrPriority frames then ["KF.C16.headersPaddedOrPriority"] else []) ++
           (if KF.C16.headersContinued frames then ["KF.C16.headersContinued"] else []) ++
-          (if KF.C16.emptyValue o.fields then ["KF.C16.emptyValue"] else []) ++
+          (if KF.C16.emptyValue isReq o.fields then ["KF.C16.emptyValue"] else []) ++
           (if o.staticRefs.contains 15 then ["KF.C16.hpackStaticEntry15"] else [])
         let kfSig := if KF.C16.listCase ol sl reported then ["KF.C16.listCase"] else []
         .message o.fields (kf ++ kfSig) (featTag o.feats ++ "/" ++ fieldTag o.fields)
@@ -164,12 +159,12 @@ def presp (impl : String) : P Verdict := do
 def modelOReq (data : Bytes) : String :=
   match processorsParseRequest H lang data with
   | none => "none"
-  | some o => showObsReqCore (ObsRequest.core o)
+  | some o => showObsReqCore (obsReqCore o)
 
 def modelOResp (data : Bytes) : String :=
   match processorsParseResponse H data with
   | none => "none"
-  | some o => showObsRespCore { status := o.status, headers := o.headers, horder := o.horder, habsent := o.habsent, expsw := o.expsw }
+  | some o => showObsRespCore (obsRespCore o)
 
 /-- `C16.oreq <bytes>` — `HttpProcessors::new().parse_request` (inputs with `H1Rejects`) -/
 def oreq (impl : String) : P Verdict := do
